@@ -499,6 +499,39 @@ def gen_subscription_case(seed, depth=2):
     switch_off([root_field])
     for fr in g.frags.values():
         switch_off(fr["sel"])
+    # @defer below the root field, switched by a literal false or by a Boolean! variable (what validation admits on a
+    # subscription): an active one is answered with a field error at every object position whose selection meets it -
+    # at every item of a list alike
+    if seed % 3 == 0:
+        def defer_some(sels, top):
+            for k, sl in enumerate(sels):
+                if sl["k"] in ("I", "S") and not top and rnd.random() < 0.5 and not any(d["d"] == "defer" for d in sl["dirs"]):
+                    r = rnd.random()
+                    if r < 0.25:
+                        sl["dirs"] = sl["dirs"] + [{"d": "defer", "v": {"lit": False}}]
+                    else:
+                        v = rnd.choice(["vt", "vt", "vf", "vb"])
+                        sl["dirs"] = sl["dirs"] + [{"d": "defer", "v": {"var": v}}]
+                        if not any(x["name"] == v for x in vardefs):
+                            n_, t_, dflt = next(x for x in VARDEFS if x[0] == v)
+                            vardefs.append({"name": n_, "type": t_, "hasDefault": dflt is not None, "default": ival(dflt)})
+                            if dflt is None or rnd.random() < 0.5:
+                                variables[v] = var_value(rnd, t_)
+                elif sl["k"] == "F" and sl["sel"] and not top and rnd.random() < 0.35:
+                    # wrap a part of the sub-selection into a deferred inline fragment
+                    cut = rnd.randrange(len(sl["sel"]))
+                    v = rnd.choice(["vt", "vb", "vf"])
+                    sl["sel"] = sl["sel"][:cut] + [{"k": "I", "on": "", "dirs": [{"d": "defer", "v": {"var": v}}], "sel": sl["sel"][cut:]}]
+                    if not any(x["name"] == v for x in vardefs):
+                        n_, t_, dflt = next(x for x in VARDEFS if x[0] == v)
+                        vardefs.append({"name": n_, "type": t_, "hasDefault": dflt is not None, "default": ival(dflt)})
+                        if dflt is None or rnd.random() < 0.5:
+                            variables[v] = var_value(rnd, t_)
+                if sl["k"] in ("F", "I") and sl.get("sel"):
+                    defer_some(sl["sel"], False)
+        defer_some(root_field["sel"], False)
+        for fr in g.frags.values():
+            defer_some(fr["sel"], False)
     doc = {"sel": [root_field], "frags": g.frags or {"_": {"on": "Query", "sel": []}}, "vardefs": vardefs}
     names = doc_field_names(doc)
     events = [prune(gen_obj(rnd, "Subscription", depth), names) for _ in range(rnd.choice([0, 1, 2, 3, 4]))]
